@@ -24,6 +24,7 @@ from . import extract as X
 from . import fields, recorder
 
 REL_TOL = 2e-7      # relative to the largest magnitude of the reference (round-off through nested FD)
+ABS_TOL = 1e-12     # two values that are both zero up to round-off (e.g. the Ricci tensor with vacuum=True) are equal
 WALL_GUARD_S = 180
 
 
@@ -143,23 +144,29 @@ class Engine:
             return v
         return rel[req]
 
-    def fresh(self, req, pre=()):
-        """Value a fresh instance (inputs only, default cache settings) returns for this one request.
+    def fresh(self, req, forced=()):
+        """Value a fresh instance (inputs only) returns for this one request.
 
-        pre: requests issued before on the fresh instance (used only to select the same *branch class*
-        for the few guards whose branches agree only on exact solutions of Einstein's equations)."""
-        key = (req, tuple(pre))
+        forced: ((guard key, outcome), ...) - answers given to the few `key in self.data` tests whose two branches agree
+        only on exact solutions of Einstein's equations, so that the fresh instance builds the value by the same
+        construction as the history did (what the cache holds cannot be arranged by pre-requests alone: a pre-request
+        caches other guard keys as a side effect)."""
+        key = (req, tuple(forced))
         if key not in self._fresh:
-            # with `pre` the instance must keep what was pre-requested: no clean-up
-            rel, _ = self.new(attach=False) if not pre else self.new(10 ** 9, 10 ** 6, attach=False)
+            if not forced:
+                rel, rec = self.new(attach=False)
+            else:
+                rel, rec = self.new(10 ** 9, 10 ** 6, attach=True)
+                rec.force_keys = dict(forced)
             try:
-                for p in pre:
-                    rel[p]
-                self._fresh[key] = ("ok", self.do(rel, None, req))
+                self._fresh[key] = ("ok", self.do(rel, rec, req))
             except RecursionError:
                 self._fresh[key] = ("raise", "RecursionError")
             except Exception as ex:
                 self._fresh[key] = ("raise", type(ex).__name__)
+            finally:
+                if rec is not None:
+                    rec.detach()
         return self._fresh[key]
 
     # ------------------------------------------------------------------
@@ -259,7 +266,7 @@ class Engine:
                         if g in want and want[g] != o:
                             mixed = True
                         want[g] = o
-                    pre = tuple(sorted(g for g, o in want.items() if o))
+                    pre = tuple(sorted(want.items()))
                 if mixed:
                     mixed_skipped += 1
                     held.append((f"returned:{req}", outcome[1], digest(outcome[1]))) if outcome[0] == "ok" else None
@@ -285,7 +292,7 @@ class Engine:
                                          dict(setting, pos=pos, branch=branch)))
                 elif outcome[0] == "ok":
                     r = max_diff(outcome[1], ref[1])
-                    if r is None or not (r[0] <= REL_TOL * r[1]):
+                    if r is None or not (r[0] <= max(REL_TOL * r[1], ABS_TOL)):
                         used_default = sorted(set(default_fallbacks(evs, frozen0, self.inputs)))
                         findings.append(("C01", {"clause": "ReturnedEqualsFresh", "kind": "value", "key": req,
                                                  "branch": branch},
@@ -343,7 +350,7 @@ class Engine:
 
 
 
-ONSHELL_GUARDS = ("st_Riemann_down4", "Tdown4")
+ONSHELL_GUARDS = ("st_Riemann_down4", "Tdown4", "st_Ricci_down4")
 
 
 def provenance(evs, table, inputs):
